@@ -53,7 +53,42 @@ def programs(rnd):
           I("iny", 0, "sa"), I("jsr", "sb"), I("iny"), I("rts"), I("inx", 0, "sb"), I("nop"), I("rts")]
     p3 = [I("lda", 5), I("ldx", 2), I("jsr", "s", "loop"), I("dex"), I("bne", "loop"), I("brk"),
           I("pha", 0, "s"), I("iny"), I("pla"), I("rts")]
-    return [("loopsub", p1, "dex", "iny"), ("nested", p2, "dex", "inx"), ("push", p3, "dex", "iny")]
+    return [plain("loopsub", p1, "dex", "iny"), plain("nested", p2, "dex", "inx"), plain("push", p3, "dex", "iny"),
+            dup_loop(rnd), dup_macro(rnd)]
+
+
+def plain(name, prog, a_op, b_op):
+    src, lines = render(prog)
+    return {"name": name, "prog": resolve(prog), "lines": lines, "source": src,
+            "sets": {"A": [line_of(prog, lines, a_op)], "B": [line_of(prog, lines, b_op, 0)], "None": []}}
+
+
+def dup_loop(rnd):
+    """One source line assembled several times: the body of `.loop n`. prog is the EXPANDED instruction list,
+    lines[k] the source line instruction k came from (the spec's line -> set of pcs)."""
+    n = rnd.choice([2, 3])
+    src = '.test "t" {\n    ldx #0\n    .loop %d {\n        inx\n        nop\n    }\n    iny\n    brk\n}\n' % n
+    prog = [{"op": "ldx", "arg": 0}] + [{"op": "inx", "arg": 0}, {"op": "nop", "arg": 0}] * n + [{"op": "iny", "arg": 0}, {"op": "brk", "arg": 0}]
+    lines = [2] + [4, 5] * n + [7, 8]
+    return {"name": "duploop", "prog": prog, "lines": lines, "source": src, "sets": {"A": [4], "B": [5], "None": []}}
+
+
+def dup_macro(rnd):
+    """A macro invoked several times: the frame and the breakpoint are on the line inside the macro definition."""
+    n = rnd.choice([2, 3])
+    body = "".join("    bump()\n    iny\n" for _ in range(n))
+    src = '.macro bump() {\n    inx\n}\n.test "t" {\n    ldx #0\n%s    brk\n}\n' % body
+    prog = [{"op": "ldx", "arg": 0}] + [{"op": "inx", "arg": 0}, {"op": "iny", "arg": 0}] * n + [{"op": "brk", "arg": 0}]
+    lines = [5] + [x for k in range(n) for x in (2, 7 + 2 * k)] + [6 + 2 * n]
+    return {"name": "dupmacro", "prog": prog, "lines": lines, "source": src, "sets": {"A": [2], "B": [7], "None": []}}
+
+
+def probe_program(rnd):
+    """Long enough (in instructions) that a perturbed machine is still inside the loop 60-120 ms after configurationDone
+    (the machine thread first sleeps up to 50 ms in its Launching branch): breakpoints installed DURING the free run."""
+    n = rnd.choice([22, 26, 30])
+    p = [I("ldx", n), I("jsr", "sub", "loop"), I("dex"), I("bne", "loop"), I("brk"), I("iny", 0, "sub"), I("rts")]
+    return plain("probeloop", p, "dex", "iny")
 
 
 def long_program(rnd):
@@ -61,7 +96,7 @@ def long_program(rnd):
     outer = rnd.choice([3, 4, 5])
     p = [I("ldy", outer), I("ldx", 250, "o"), I("dex", 0, "i"), I("bne", "i"), I("jsr", "s"), I("dey"), I("bne", "o"), I("brk"),
          I("nop", 0, "s"), I("rts")]
-    return ("long", p, "dey", "nop")
+    return plain("long", p, "dey", "nop")
 
 
 def resolve(prog):
@@ -100,15 +135,17 @@ def tlc_scripts(tier):
     return rows
 
 
-def instantiate(case, prog, lines, a_op, b_op, rnd, slow):
-    sets = {"A": [line_of(prog, lines, a_op)], "B": [line_of(prog, lines, b_op, 0)], "None": []}
+def instantiate(case, pg, rnd, slow, late=False):
+    sets = pg["sets"]
     steps = []
     for a in case["script"]:
         gap = rnd.choice([0.0, 0.0, 0.002, 0.01, 0.03])
         if a.startswith("setBps"):
-            steps.append({"a": "setBps", "lines": sets[a[6:]], "delay": rnd.choice([0, 0, 0.001, 0.004])})
+            # late: the request must arrive while the machine thread is in its run loop (it sleeps <= 50 ms before it starts)
+            steps.append({"a": "setBps", "lines": sets[a[6:]], "delay": rnd.choice([0.06, 0.07, 0.085, 0.1, 0.12]) if late and not steps else rnd.choice([0, 0, 0.001, 0.004])})
         elif a == "pause":
-            steps.append({"a": a, "delay": rnd.choice([0, 0, 0.0005, 0.002, 0.005, 0.012, 0.025]) if slow else rnd.choice([0.0498, 0.0501, 0.0504, 0.0507, 0.051, 0.0513]), "gap": gap})   # full speed: the machine thread wakes <= 50 ms after start and runs ~1 ms
+            # full speed: the machine thread wakes <= 50 ms after start and runs ~1 ms
+            steps.append({"a": a, "delay": rnd.choice([0, 0, 0.0005, 0.002, 0.005, 0.012, 0.025]) if slow else rnd.choice([0.0498, 0.0501, 0.0504, 0.0507, 0.051, 0.0513]), "gap": gap})
         else:
             steps.append({"a": a, "delay": rnd.choice([0, 0, 0, 0.001]), "gap": gap})
     return sets[case["bps0"]], steps
@@ -139,7 +176,7 @@ def run_worker(widx, mos, jobs, perturb, results, errors):
                 errors.append("worker %d: %s after %d sessions; stderr: %s; threads: %s" % (widx, e, n, " | ".join(l for l in m.stderr_text().splitlines() if "listening on port" not in l)[-900:], [(t["comm"], t["state"], t["wchan"]) for t in m.threads()]))
                 return
             s.run(job["bps0"], job["steps"])
-            results[job["id"]] = {"obs": D.observations(s.dap.log), "failed": s.failed, "n": n, "worker": widx, "log": s.dap.log}
+            results[job["id"]] = {"obs": D.observations(s.dap.log, s.probe_seqs), "failed": s.failed, "n": n, "worker": widx, "log": s.dap.log}
             n += 1
         time.sleep(0.1)
     finally:
@@ -165,11 +202,22 @@ def design_level(rep, tier):
         if r.rc != 0 or "Error:" in r.out:
             raise V.ToolError("MC_Debugger_%s failed:\n%s" % (name, V.tail(r.out, 40)))
         rep.notes.append("MC_Debugger_%s%s: %d distinct states, depth %d; %s hold" % (name, sfx, r.distinct, r.depth, must))
+    r = V.tlc(mc, cfg=os.path.join(SPEC, "MC_Debugger_dup.cfg"), workers=3, timeout=600, tag="C19-mc-dup")
+    rep.add_tlc(r)
+    if r.invariant_violated:
+        rep.violations.append({"why": "design level: MC_Debugger_dup invariant violated", "replay": {"tlc_output": V.tail(r.out, 120)}, "id": "MC_Debugger_dup"})
+        return
+    if r.rc != 0 or "Error:" in r.out:
+        raise V.ToolError("MC_Debugger_dup failed:\n%s" % V.tail(r.out, 40))
+    rep.notes.append("MC_Debugger_dup (one source line = two instructions, breakpoints by line): %d distinct states; all properties hold" % r.distinct)
     # counterexamples that must exist: the recorded findings as violations of the ideal reading, and vacuity witnesses
     for name, what in (("race", "PauseRace: StoppedIsHalted fails on the implementation-shaped reading"),
                        ("race_insp", "PauseRace seen by the client: stackTrace/variables disagree"),
                        ("push", "StepOutReadsTopOfStack: StepExact fails when the subroutine pushed data"),
                        ("self", "one-instruction loop: breakpoint not re-checked (NoSkippedBreakpoint fails)"),
+                       ("cex_dup", "hypothetical FirstPcOnly: a breakpoint on a line assembled twice covers only the first copy (NoSkippedBreakpoint fails)"),
+                       ("cex_stale", "hypothetical StaleBpCopy: breakpoints installed during a free run are not seen (NoSkipAfterProbe fails)"),
+                       ("vac_probe", "some behaviour probes a running machine with a breakpoint armed"),
                        ("vac_stop", "some behaviour stops"), ("vac_term", "some behaviour runs to the end"),
                        ("vac_out", "some behaviour steps out of a subroutine")):
         r = V.tlc(mc, cfg=os.path.join(SPEC, "MC_Debugger_%s.cfg" % name), workers=3, timeout=600, tag="C19-mc-" + name)
@@ -192,29 +240,31 @@ def main(tier):
     nsess = 260 if tier == "quick" else 1800
     nlong = 20 if tier == "quick" else 100
     jobs, meta = [], {}
+    nprobe = 36 if tier == "quick" else 150
     picks = scripts if len(scripts) <= nsess else None
+    probe_scripts = [c for c in scripts if "probe" in c["script"]]
+    pause_scripts = [c for c in scripts if "pause" in c["script"] and "probe" not in c["script"]]
+
+    def add(i, case, pg, kind, slow, late=False):
+        bps0, steps = instantiate(case, pg, rnd, slow, late)
+        jobs.append({"id": i, "source": pg["source"], "bps0": bps0, "steps": steps, "kind": kind})
+        meta[i] = {"prog": pg["prog"], "lines": pg["lines"], "fuel": 4000 if kind == "fast" else 400, "name": pg["name"], "case": case, "source": pg["source"]}
     for i in range(1, nsess + 1):
-        case = picks[(i - 1) % len(picks)] if picks else rnd.choice(scripts)
-        name, prog, a_op, b_op = rnd.choice(programs(rnd))
-        src, lines = render(prog)
-        bps0, steps = instantiate(case, prog, lines, a_op, b_op, rnd, slow=True)
-        jobs.append({"id": i, "source": src, "bps0": bps0, "steps": steps, "fast": False})
-        meta[i] = {"prog": resolve(prog), "lines": lines, "fuel": 400, "name": name, "case": case, "source": src}
-    pause_scripts = [c for c in scripts if "pause" in c["script"]]
+        add(i, picks[(i - 1) % len(picks)] if picks else rnd.choice(scripts), rnd.choice(programs(rnd)), "slow", True)
     for i in range(nsess + 1, nsess + nlong + 1):
-        case = rnd.choice(pause_scripts)
-        name, prog, a_op, b_op = long_program(rnd)
-        src, lines = render(prog)
-        bps0, steps = instantiate(case, prog, lines, a_op, b_op, rnd, slow=False)
-        jobs.append({"id": i, "source": src, "bps0": bps0, "steps": steps, "fast": True})
-        meta[i] = {"prog": resolve(prog), "lines": lines, "fuel": 4000, "name": name, "case": case, "source": src}
+        add(i, rnd.choice(pause_scripts), long_program(rnd), "fast", False)
+    for i in range(nsess + nlong + 1, nsess + nlong + nprobe + 1):
+        # breakpoints installed while the machine runs freely, anchored by a reading of the running machine's registers
+        add(i, probe_scripts[(i - nsess - nlong - 1) % len(probe_scripts)], probe_program(rnd), "probe", True, late=True)
     # workers: one unperturbed process (full-speed machine, long programs), the others with seeded sleeps at the hook's gate points
     sd = V.seed()
     perturbs = [None, "%d:400:500" % (sd * 7 + 1), "%d:1500:1000" % (sd * 7 + 2), "%d:3000:600" % (sd * 7 + 3), "%d:800:1000" % (sd * 7 + 4)]
     buckets = [[] for _ in perturbs]
     for j in jobs:
-        if j["fast"]:
+        if j["kind"] == "fast":
             buckets[0].append(j)
+        elif j["kind"] == "probe":
+            buckets[2 + j["id"] % 3].append(j)        # the three slowest machines (>= 0.8 ms per instruction on average)
         else:
             buckets[1 + j["id"] % (len(perturbs) - 1)].append(j)
     results, errors, ths = {}, [], []
@@ -269,9 +319,11 @@ def main(tier):
     rep.cov["traces_validated_against_impl"] = len(recs)
     rep.cov["evaluations"] = nsnap
     rep.cov["distinct_nontrivial"] = len({json.dumps([meta[r["id"]]["name"], meta[r["id"]]["case"], [o for o in r["obs"] if o["k"] != "snap"]], sort_keys=True) for r in recs})
-    rep.cov["rule"] = ("debug sessions = TLC-enumerated client scripts (DebuggerCases, <= %d requests, 3 initial breakpoint choices) x 3 program shapes (loop+subroutine, nested "
-                       "subroutines, subroutine that pushes) with seeded delays, driven through the DAP socket of 4 perturbed and 1 full-speed mos lsp processes; "
+    rep.cov["rule"] = ("debug sessions = TLC-enumerated client scripts (DebuggerCases, <= %d requests, 3 initial breakpoint choices) x 5 program shapes (loop+subroutine, nested "
+                       "subroutines, subroutine that pushes, a line inside .loop n, a line inside a macro invoked n times) with seeded delays, plus probe scripts (setBreakpoints during "
+                       "the free run of a 110-150 instruction loop, anchored by a Registers reading of the running machine), driven through the DAP socket of 4 perturbed and 1 full-speed mos lsp processes; "
                        "evaluations = snapshots (stackTrace+Registers+evaluate) judged; distinct = distinct (program shape, script, protocol event sequence)" % (3 if tier == "quick" else 4))
+    rep.cov["probes_anchored_mid_run"] = info.get("ProbeAnchored", 0)
     rep.cov["sessions_with_hook_log"] = hooked
     rep.cov["hook_events_replayed"] = info.get("HookEventsReplayed", 0)
     rep.cov["race_instances_in_hook_logs"] = info.get("RaceAtHookLevel", 0)
